@@ -14,18 +14,20 @@ PATTERNS = ['silence', 'trickle', 'burst_before', 'burst_after', 'match_mid', 'e
 # the same child behaviours while the parent handles a signal every 0.2371 virtual seconds (handler: 3 ms), the waits failing with EINTR
 SIG_PATTERNS = ['silence+sig', 'trickle+sig', 'burst_before+sig', 'burst_after+sig', 'match_mid+sig']
 SIG_EVERY, SIG_COST = 0.2371, 0.003
+# unicode mode: reads that hold only a piece of a multi-byte character deliver no text; the deadline still counts
+U8_PATTERNS = ['u8:partial_char', 'u8:partial_then_match', 'u8:byte_trickle']
 TRANSPORTS = ['pty-select', 'pty-poll', 'fd-select', 'fd-poll', 'socket', 'socket-own', 'popen']     # socket-own: the socket carries its own 0.25 s timeout
 ENTRIES = ['expect', 'expect_exact', 'expect_list', 'expect_loop', 'read_nonblocking']
 TS = [-1, None, 0, 2.0, 0.7]
 
 
 class PopenPeer(object):
-    def __init__(self):
+    def __init__(self, encoding=None):
         import tempfile
         self.d = tempfile.mkdtemp(prefix='verif_pod_')
         self.c = os.path.join(self.d, 'c'); self.a = os.path.join(self.d, 'a')
         os.mkfifo(self.c); os.mkfifo(self.a)
-        self.p = popen_spawn.PopenSpawn([common.PY, '-c', T.POPEN_CHILD, self.c, self.a], timeout=DEFAULT_T)
+        self.p = popen_spawn.PopenSpawn([common.PY, '-c', T.POPEN_CHILD, self.c, self.a], timeout=DEFAULT_T, encoding=encoding)
         self.cw = os.open(self.c, os.O_WRONLY); self.ar = os.open(self.a, os.O_RDONLY)
         assert os.read(self.ar, 1) == b'R'
         self.exited = False
@@ -86,6 +88,13 @@ def arrivals_for(pattern, Teff, write, finish):
         return [(0.3071, lambda: write(b'bye')), (0.2113, finish)]
     if pattern == 'immediate':
         return []
+    if pattern == 'u8:partial_char':
+        return [(0.1731, lambda: write(b'\xe2\x82'))]
+    if pattern == 'u8:partial_then_match':
+        return [(0.1731, lambda: write(b'\xe2\x82')), (0.2113, lambda: write(b'\xacMATCH'))]
+    if pattern == 'u8:byte_trickle':
+        bs = '\u20ac\u00e9\u672c'.encode('utf-8') * 12
+        return [(0.0731, (lambda b=bytes([b]): write(b))) for b in bs]
     raise ValueError(pattern)
 
 
@@ -95,8 +104,9 @@ def scenario(transport, entry, Targ, pattern, rng=None):
     Teff = DEFAULT_T if Targ == -1 else Targ
     cleanup = []
     ctl = None
+    enc = 'utf-8' if pattern.startswith('u8:') else None
     if transport.startswith('pty'):
-        ctl = T.PtyCtl([], use_poll=transport.endswith('poll'))
+        ctl = T.PtyCtl([], use_poll=transport.endswith('poll'), encoding=enc)
         p = ctl.p
         p.timeout = DEFAULT_T
 
@@ -108,7 +118,7 @@ def scenario(transport, entry, Targ, pattern, rng=None):
         cleanup.append(ctl.close)
     elif transport.startswith('fd'):
         peer = T.FdPeer([], 'fd')
-        p = fdpexpect.fdspawn(peer.rfd, timeout=DEFAULT_T, use_poll=transport.endswith('poll'))
+        p = fdpexpect.fdspawn(peer.rfd, timeout=DEFAULT_T, use_poll=transport.endswith('poll'), encoding=enc)
 
         def write(b):
             peer.script = [('W', b)]; peer.act1()
@@ -120,7 +130,7 @@ def scenario(transport, entry, Targ, pattern, rng=None):
         peer = T.FdPeer([], 'socket')
         if transport == 'socket-own':
             peer.rsock.settimeout(0.25)
-        p = socket_pexpect.SocketSpawn(V.VSock(peer.rsock, clk), timeout=DEFAULT_T)
+        p = socket_pexpect.SocketSpawn(V.VSock(peer.rsock, clk), timeout=DEFAULT_T, encoding=enc)
 
         def write(b):
             peer.script = [('W', b)]; peer.act1()
@@ -129,7 +139,7 @@ def scenario(transport, entry, Targ, pattern, rng=None):
             peer.script = [('C',)]; peer.act1()
         cleanup.append(lambda: (peer.cleanup(), peer.rsock.close()))
     else:
-        pp = PopenPeer()
+        pp = PopenPeer(enc)
         p = pp.p
         write, finish = pp.write, pp.exit
         cleanup.append(pp.close)
@@ -142,7 +152,7 @@ def scenario(transport, entry, Targ, pattern, rng=None):
         if pattern.endswith('+sig'):
             clk.interrupts = [clk.now + SIG_EVERY * k + 0.00007 for k in range(1, 200)]
             clk.handler_cost = SIG_COST
-        pat = b'MATCH'
+        pat = 'MATCH' if enc else b'MATCH'
         with V.Install(clk, transport, p=p, ctl=ctl):
             start = clk.now
             outcome = None
@@ -232,7 +242,7 @@ def oracle(transport, entry, Targ, pattern, r):
     if entry != 'read_nonblocking':
         if pattern == 'immediate' and out != 'hit' and not (Teff is not None and Teff < 0):
             return 'text that was already readable was not examined (timeout %s): %s' % (Teff, out)
-        if pattern in ('match_mid', 'trickle_then_match') and Teff is not None and Teff >= 1.5 and out != 'hit':
+        if pattern in ('match_mid', 'trickle_then_match', 'u8:partial_then_match') and Teff is not None and Teff >= 1.5 and out != 'hit':
             return 'a match arriving before the deadline ended in %s' % out
         if pattern == 'burst_after' and Teff is not None and out == 'hit':
             return 'matched text that arrived after the deadline'
@@ -269,17 +279,28 @@ def stage_virtual(ctx, stats, sigs):
                     if Ta is None and pa.split('+')[0] in ('silence', 'trickle', 'burst_before'):
                         continue
                     sig_combos.append((tr, en, Ta, pa))
-    corpus = [('socket-own', 'expect', None, 'match_mid'), ('socket-own', 'read_nonblocking', None, 'match_mid'), ('socket-own', 'expect_exact', 2.0, 'match_mid'),
+    u8_combos = []
+    for tr in TRANSPORTS:
+        for en in ENTRIES:
+            for Ta in TS:
+                for pa in U8_PATTERNS:
+                    if Ta is None and pa != 'u8:partial_then_match':
+                        continue
+                    if tr == 'popen' and Ta is None and en == 'read_nonblocking':
+                        continue
+                    u8_combos.append((tr, en, Ta, pa))
+    corpus = [('pty-select', 'expect', 0.7, 'u8:partial_char'), ('fd-poll', 'read_nonblocking', 0.7, 'u8:partial_char'), ('fd-select', 'expect_exact', 2.0, 'u8:partial_then_match'),
+              ('socket-own', 'expect', None, 'match_mid'), ('socket-own', 'read_nonblocking', None, 'match_mid'), ('socket-own', 'expect_exact', 2.0, 'match_mid'),
               ('pty-select', 'expect', 2.0, 'trickle'), ('socket', 'expect', 0, 'silence'), ('socket', 'expect', 0, 'immediate'),
               ('popen', 'expect', 0, 'immediate'), ('pty-select', 'expect_loop', -1, 'silence'), ('fd-poll', 'expect_list', -1, 'burst_after'),
               ('pty-poll', 'read_nonblocking', 0.7, 'silence'), ('popen', 'expect_exact', 0.7, 'trickle'),
               ('pty-select', 'expect', -0.5, 'silence'), ('socket', 'expect_exact', -0.5, 'immediate'), ('fd-poll', 'expect_list', -0.5, 'trickle')]
     if ctx.quick():
         rng.shuffle(combos)
-        rng.shuffle(sig_combos)
-        combos = corpus + combos[:110] + [('pty-select', 'expect', 0.7, 'silence+sig'), ('fd-poll', 'expect_exact', 2.0, 'trickle+sig')] + sig_combos[:40]
+        rng.shuffle(sig_combos); rng.shuffle(u8_combos)
+        combos = corpus + combos[:110] + u8_combos[:25] + [('pty-select', 'expect', 0.7, 'silence+sig'), ('fd-poll', 'expect_exact', 2.0, 'trickle+sig')] + sig_combos[:40]
     else:
-        combos = corpus + combos + sig_combos
+        combos = corpus + combos + sig_combos + u8_combos
     results = []
     for (tr, en, Ta, pa) in combos:
         r = scenario(tr, en, Ta, pa, rng)
